@@ -146,6 +146,21 @@ Proof. exact ssh_relay_order. Qed.
 Theorem C15_ssh_cross_order_refuted : exists msgs sched, ssh_relay msgs sched <> msgs.
 Proof. exact ssh_cross_order_refuted. Qed.
 
+(* closing a channel: whichever goroutine wins, what the other side receives is a prefix of
+   what was sent (nothing altered or reordered); complete when the copier is not pre-empted;
+   but the closing goroutine can pre-empt it (defect: truncated output) *)
+Theorem C15_ssh_early_close_delivers_prefix : forall chunks sched,
+  exists rest, concat chunks = relay_until_close chunks sched ++ rest.
+Proof. exact relay_until_close_prefix. Qed.
+
+Theorem C15_ssh_no_early_close_delivers_all : forall chunks sched,
+  (length chunks <= length sched)%nat -> Forall (fun b => b = true) sched ->
+  relay_until_close chunks sched = concat chunks.
+Proof. exact relay_until_close_complete. Qed.
+
+Theorem C15_ssh_early_close_refuted : exists chunks sched, relay_until_close chunks sched <> concat chunks.
+Proof. exact early_close_refuted. Qed.
+
 (* non-vacuity *)
 Example C15_lockstep_hypotheses_satisfiable : exs_ok 0 EXS.
 Proof. exact exs_example_ok. Qed.
@@ -183,3 +198,6 @@ Print Assumptions C15_dns_unwrapped_relays.
 Print Assumptions C15_ssh_auth_forwarded_as_presented.
 Print Assumptions C15_ssh_relay_order.
 Print Assumptions C15_ssh_cross_order_refuted.
+Print Assumptions C15_ssh_early_close_delivers_prefix.
+Print Assumptions C15_ssh_no_early_close_delivers_all.
+Print Assumptions C15_ssh_early_close_refuted.
